@@ -122,7 +122,7 @@ Theorem code_facts :
   FWD_CHUNK_DATA_COUNTS_ACCEPTED_AND_KEEPS_STATE = true /\ FWD_NON_ENCODED_COUNTS_ACCEPTED = true
   /\ FWD_CHUNK_PREFIX_AS_MODELLED = true /\ FWD_CHUNK_SUFFIX_AS_MODELLED = true
   /\ FWD_INTERIM_TAIL_IS_PARSER_LEFTOVER = true /\ FWD_BODY_MODE_SELECTION_AS_MODELLED = true
-  /\ H3_REQUEST_END_KEEPS_RESPONSE_DIRECTION = true.
+  /\ H3_REQUEST_END_KEEPS_RESPONSE_DIRECTION = true /\ H3_SINK_WRITE_AS_MODELLED = true.
 Proof. repeat split; exact eq_refl. Qed.
 Print Assumptions code_facts.
 
